@@ -88,3 +88,35 @@ TW('C03', 'twin-gate-where-and-flipped-cmp', DS, "      return lax.cond(\n      
    "      return jnp.where(_skip(error), old_p, new_p)\n\n    new_preconditioners_flat = []", count=2)
 TW('C03', 'twin-sharded-flipped-cmp', DS, "        jnp.isnan(errors), errors >= inverse_failure_threshold)\n    # TODO(rohananil)", "        jnp.isnan(errors), inverse_failure_threshold <= errors)\n    # TODO(rohananil)")
 TW('C03', 'twin-sharded-select', DS, "    new_conditional_preconditioners = jnp.where(\n        predicate, global_stats.preconditioners, new_preconditioners)", "    old_preconditioners = global_stats.preconditioners\n    new_conditional_preconditioners = lax.select(\n        predicate, old_preconditioners, new_preconditioners)")
+
+# ------------------------------------------------------------------ C04
+M('C04', 'ds-count-plus-2', DS, "    new_state = ShampooState(count=state.count + 1, stats=new_stats)", "    new_state = ShampooState(count=state.count + 2, stats=new_stats)")
+M('C04', 'sharded-count-not-advanced', DS, "        count=state.count + 1,\n        stats=ShardedShampooStats(new_global_stats, new_local_stats))", "        count=state.count,\n        stats=ShardedShampooStats(new_global_stats, new_local_stats))")
+M('C04', 'sm3-count', SM3, "SM3State(count=state.count+1, stats=new_sm3_stats)", "SM3State(count=state.count, stats=new_sm3_stats)")
+M('C04', 'stats-guard-off-by-one', DS, "        perform_step = step % statistics_compute_steps == 0\n        init_state = state.statistics", "        perform_step = (step + 1) % statistics_compute_steps == 0\n        init_state = state.statistics")
+M('C04', 'stats-guard-residue-1', DS, "        perform_step = step % statistics_compute_steps == 0\n        init_state = state.statistics", "        perform_step = step % statistics_compute_steps == 1\n        init_state = state.statistics")
+M('C04', 'pmap-guard-wrong-interval', DS, "    perform_step = step % preconditioning_compute_steps_t == 0\n\n    def _update_preconditioners():", "    perform_step = step % statistics_compute_steps == 0\n\n    def _update_preconditioners():")
+M('C04', 'quantized-guard-plus-one', DS, "    perform_step = step % preconditioning_compute_steps_t == 0\n\n    def _update_quantized_preconditioners():", "    perform_step = (step + 1) % preconditioning_compute_steps_t == 0\n\n    def _update_quantized_preconditioners():")
+M('C04', 'sharded-guard-on-new-count', DS, "    perform_step = state.count % preconditioning_compute_steps_t == 0\n", "    perform_step = (state.count + 1) % preconditioning_compute_steps_t == 0\n")
+M('C04', 'update-fn-step-plus-one', DS, "    new_stats_flat = _compute_preconditioners(new_stats_flat, params_flat,\n                                              state.count)", "    new_stats_flat = _compute_preconditioners(new_stats_flat, params_flat,\n                                              state.count + 1)")
+M('C04', 'update-fn-transform-step-shift', DS, "    outputs = jax.tree.map(\n        lambda g, s, p: _transform_grad(g, s, p, state.count), grads_flat,\n        new_stats_flat, params_flat)\n    updates_flat, new_stats_flat = list(zip(*outputs)) if outputs else ((), ())\n\n    updates = jax.tree.unflatten(treedef, updates_flat)\n    new_stats = ",
+  "    outputs = jax.tree.map(\n        lambda g, s, p: _transform_grad(g, s, p, state.count + 1), grads_flat,\n        new_stats_flat, params_flat)\n    updates_flat, new_stats_flat = list(zip(*outputs)) if outputs else ((), ())\n\n    updates = jax.tree.unflatten(treedef, updates_flat)\n    new_stats = ")
+M('C04', 'update-fn-precond-before-stats', DS, "    new_stats_flat = _compute_preconditioners(new_stats_flat, params_flat,\n                                              state.count)", "    new_stats_flat = _compute_preconditioners(stats_flat, params_flat,\n                                              state.count)")
+M('C04', 'warmup-strict', DS, "    run_shampoo = (step >= start_preconditioning_step).astype(", "    run_shampoo = (step > start_preconditioning_step).astype(")
+M('C04', 'warmup-swapped', DS, "    momentum_update = (\n        run_shampoo * shampoo_update_with_wd_momentum +\n        (1.0 - run_shampoo) * grafting_update_with_wd_momentum)", "    momentum_update = (\n        run_shampoo * grafting_update_with_wd_momentum +\n        (1.0 - run_shampoo) * shampoo_update_with_wd_momentum)")
+M('C04', 'metrics-identity-arm-recomputed', DS, "          metrics_for_state = efficient_cond(perform_step,\n                                             lambda: [metrics_for_state],\n                                             [state.training_metrics])[0]\n          # pylint:enable=cell-var-from-loop\n        else:\n          metrics_for_state = optax.MaskedNode()\n        metrics_for_states.append(metrics_for_state)\n\n        idx += num_statistics\n    new_states = []",
+  "          metrics_for_state = efficient_cond(perform_step,\n                                             lambda: [metrics_for_state],\n                                             [metrics_for_state])[0]\n          # pylint:enable=cell-var-from-loop\n        else:\n          metrics_for_state = optax.MaskedNode()\n        metrics_for_states.append(metrics_for_state)\n\n        idx += num_statistics\n    new_states = []")
+M('C04', 'sharded-keep-old-polarity', DS, "          new_local_stats_flat, metrics, ~perform_step)", "          new_local_stats_flat, metrics, perform_step)")
+M('C04', 'schedule-clamp-inside', DS, "  return jnp.maximum((preconditioning_compute_steps_t // 10) * 10, 1)", "  return (jnp.maximum(preconditioning_compute_steps_t, 1) // 10) * 10")
+M('C04', 'ts-precond-gated-on-stats', TS, "  should_update_precond = (\n      state.count % options.update_preconditioners_freq\n  ) == 0\n", "  should_update_precond = jnp.logical_and(\n      state.count % options.update_preconditioners_freq == 0, should_update_stats)\n")
+M('C04', 'ts-count', TS, "  new_state = _ShampooState(count=state.count + 1, blocks=blocks)", "  new_state = _ShampooState(count=state.count + options.update_statistics_freq, blocks=blocks)")
+M('C04', 'ts-stats-else-recompute', TS, "  blocks = jax.lax.cond(\n      should_update_stats, stats_updated_blocks, lambda: blocks\n  )", "  blocks = jax.lax.cond(\n      should_update_stats, stats_updated_blocks, stats_updated_blocks\n  )")
+M('C04', 'ts-roots-refresh-touches-stats', TS, "  return _AxesBlocks(roots=new_roots, stats=block.stats)", "  return _AxesBlocks(roots=new_roots, stats=[s * 1.0 + 0.0 * r for s, r in zip(block.stats, new_roots)])")
+M('C04', 'sk-guard-count-plus-one', SK, "  should_update_stats = (state.count % options.update_freq) == 0", "  should_update_stats = ((state.count + 1) % options.update_freq) == 0")
+M('C04', 'sk-ekfac-tail-not-restored', SK, "          tail=axis_state.tail,\n          inv_tail=axis_state.inv_tail,", "          inv_tail=axis_state.inv_tail,")
+M('C04', 'graft-warmup-strict', GR, "          state.count >= start_preconditioning_step,", "          state.count > start_preconditioning_step,")
+M('C04', 'graft-warmup-swapped', GR, "          base * multiplier,\n          graft_upd,\n      )", "          graft_upd,\n          base * multiplier,\n      )")
+M('C04', 'graft-count', GR, "        count=state.count + 1,\n        direction=base_state,", "        count=state.count + 0,\n        direction=base_state,")
+TW('C04', 'twin-jnp-mod', DS, "        perform_step = step % statistics_compute_steps == 0\n        init_state = state.statistics", "        perform_step = jnp.equal(jnp.mod(step, statistics_compute_steps), 0)\n        init_state = state.statistics")
+TW('C04', 'twin-count-commuted', DS, "    new_state = ShampooState(count=state.count + 1, stats=new_stats)", "    next_count = 1 + state.count\n    new_state = ShampooState(stats=new_stats, count=next_count)")
+TW('C04', 'twin-warmup-flipped', DS, "    run_shampoo = (step >= start_preconditioning_step).astype(", "    run_shampoo = (start_preconditioning_step <= step).astype(")
